@@ -198,7 +198,7 @@ def run(ctx):
     cw_calls = [c for c in A.calls_in(f.node) if A.call_name(c) == "contingency_wrapper"]
     ep_name = A.norm(A.kw(cw_calls[0], "except_plan")) if cw_calls and A.kw(cw_calls[0], "except_plan") is not None else "except_plan"
     n_close = sum(1 for fn in (f, local(repo, f, ep_name)) if fn is not None for c in A.calls_in(fn.node) if A.call_name(c) == "close_run")
-    ok = n_close == 2 and "else_plan=close_run" in A.norm(f.node)
+    ok = n_close in (1, 2) and "else_plan=close_run" in A.norm(f.node)  # (that each outcome closes exactly once with its status is C02.D1 / D4)
     ctx.ob("C23.D1-release-is-final-plan", cname(f, None, "one close_run per outcome (except: 2 branches, else: close_run)"), ok, "" if ok else f"{n_close} close_run calls", where=where(f, f.node))
     rets = [s for s in seq if isinstance(s, ast.Return)]
     ok = bool(rets) and i_open is not None and A.norm(rets[-1].value) == A.norm(seq[i_open].targets[0])
